@@ -6,6 +6,7 @@ package w
 // Lamport times, also when issued concurrently.
 
 import (
+	"bytes"
 	"fmt"
 	"net"
 	"time"
@@ -30,6 +31,8 @@ func genC06(seed uint64, tier string) *Case {
 			s := "event"
 			if kind == 1 || (kind == 2 && g.Bool(0.5)) {
 				s = "query"
+			} else if g.Bool(0.2) {
+				s = "bigevent" // a user event over the size limit: refused, and must leave no trace
 			}
 			c.Steps = append(c.Steps, Step{Op: "call", I: t, S: s})
 		}
@@ -101,6 +104,14 @@ func execC06(r *Run) {
 				cl := &c06Call{task: t, idx: i, kind: s.S, tag: fmt.Sprintf("t%d-%d", t, i)}
 				seq++
 				cl.start = seq
+				if s.S == "bigevent" {
+					if err := nd.S.UserEvent("u", bytes.Repeat([]byte{'x'}, 505), false); err == nil {
+						r.Fail("oversized-event-accepted", "C06 oversized", "a user event over the size limit was accepted")
+					}
+					r.Fault("refused-local-event")
+					seq++
+					continue
+				}
 				if s.S == "event" {
 					cl.err = nd.S.UserEvent("u", []byte(cl.tag), false)
 				} else {
